@@ -1,12 +1,65 @@
 /- Drv/C20.lean — driver handler for property C20 (line protocol; core-only imports). -/
 import FunsorVerif.Core.Sexp
-import FunsorVerif.Core.XR
+import FunsorVerif.Model.C20.Heap
+import FunsorVerif.Model.C20.Review
 namespace FV.Drv.C20
-open FV
+open FV FV.C20 FV.Gen.C20
 
-/-- `args` are the top-level S-expressions following the property tag on the request line. -/
+def parseInstr (s : Sexp) : Option Instr :=
+  match s with
+  | .list [.atom "alloc", n, v] => do some (.alloc (← n.asNat?) (← v.asInt?))
+  | .list [.atom "copy", a] => do some (.copy (← a.asNat?))
+  | .list [.atom "binop", a, b] => do some (.binop (← a.asNat?) (← b.asNat?))
+  | .list [.atom "gather", a, idx] => do some (.gather (← a.asNat?) (← idx.asNats?))
+  | .list [.atom "slice", a, b, c, d] => do some (.slice (← a.asNat?) (← b.asNat?) (← c.asNat?) (← d.asNat?))
+  | .list [.atom "rev", a] => do some (.rev (← a.asNat?))
+  | .list [.atom "alias", a] => do some (.alias (← a.asNat?))
+  | .list [.atom "setitem", d, k, v] => do some (.setItem (← d.asNat?) (← k.asNat?) (← v.asInt?))
+  | .list [.atom "fill", d, v] => do some (.fill (← d.asNat?) (← v.asInt?))
+  | .list [.atom "iadd", d, a] => do some (.iadd (← d.asNat?) (← a.asNat?))
+  | .list [.atom "assign", d, a] => do some (.assign (← d.asNat?) (← a.asNat?))
+  | _ => none
+
+def parseView (s : Sexp) : Option View :=
+  match s with
+  | .list [b, offs] => do some ⟨← b.asNat?, ← offs.asNats?⟩
+  | _ => none
+
+def viewSexp (v : View) : Sexp := .list [Sexp.ofNat v.base, Sexp.ofNats v.offs]
+def boolsSexp (bs : List Bool) : Sexp := .list (bs.map Sexp.ofBool)
+
+def siteSexp (w : WriteSite) : Sexp :=
+  .list [.str w.file, Sexp.ofNat w.line, .str w.func, .atom (reprStr w.kind), .str w.target,
+         .atom (reprStr w.prov)]
+
+/--
+  C20 run (BUF…) (VIEW…) (INSTR…)   run the program on heap/registers; answers
+        ok (heap BUF…) (regs VIEW…) (completed B) (static B) (sitetags B…) (tags B…)
+  C20 offending                      sites of the generated table not covered by a justification
+  C20 nsites                         size of the generated table
+-/
 def handle (args : List Sexp) : String :=
   match args with
-  | _ => "err unimplemented"
+  | [.atom "run", heap, regs, prog] =>
+    match heap.asList?.bind (·.mapM Sexp.asInts?), regs.asList?.bind (·.mapM parseView),
+          prog.asList?.bind (·.mapM parseInstr) with
+    | some h, some r, some p =>
+      let s : State := ⟨h, r⟩
+      let s' := runPartial p s
+      let completed := (run p s).isSome
+      let t0 := initTags s
+      let tags := p.foldl (fun t i => absStep i t) t0
+      let out : Sexp := .list [
+        .list (.atom "heap" :: s'.heap.map Sexp.ofInts),
+        .list (.atom "regs" :: s'.regs.map viewSexp),
+        .list [.atom "completed", Sexp.ofBool completed],
+        .list [.atom "static", Sexp.ofBool (staticOK p t0)],
+        .list [.atom "sitetags", boolsSexp (siteTags p t0)],
+        .list [.atom "tags", boolsSexp tags]]
+      "ok " ++ toString out
+    | _, _, _ => "err bad-args"
+  | [.atom "offending"] => "ok " ++ toString (Sexp.list (offending.map siteSexp))
+  | [.atom "nsites"] => "ok " ++ toString writeSites.length
+  | _ => "err bad-request"
 
 end FV.Drv.C20
